@@ -157,7 +157,11 @@ void World::opEnc(const Item& op)
             fault(op.get("abwhere", 0) == 2 ? "encode-call-aborted-by-allocation-failure" : "encode-call-aborted-by-exception");
         res.apiCalls++;
     }
+    std::vector<cmpfb::Operand> cmpOps;
+    if (cmpFeedback && encDepth == 0 && encDerivedLeft > 0 && batch.size() <= 16)
+        cmpfb::arm(&cmpOps);
     std::vector<Bytes> frames = n.enc->encode(specs, minB, maxB, mode);
+    cmpfb::disarm();
     if (n.enc->shadowDiverged())
         violate("life.fork-diverged", "a copy of the encoder given the same batch returned other frames than the original");
     res.apiCalls++;
@@ -397,6 +401,67 @@ void World::opEnc(const Item& op)
         }
     }
     emit(op, n, fl);
+
+    // ----- calls derived from the comparison operands of this one (edgecount.cpp): where the encoder (or the packet / payload
+    // code under it) compared a constant with a value that is one of this call's own scalars - a payload length, the frame
+    // size limits, the version, a flag byte, an id - the same call is made again with that scalar set to the constant, on
+    // the same long-lived encoder, and judged by the same oracles. Bounded: one generation, 3 per call, 6 per run.
+    if (!cmpOps.empty())
+    {
+        int made = 0;
+        ++encDepth;
+        for (auto& o : cmpOps)
+        {
+            if (made >= 3 || encDerivedLeft <= 0)
+                break;
+            Item d = op;
+            for (auto& sub : d.sub)
+                sub.erase("rep");
+            d.erase("abort");
+            bool changed = false;
+            const int64_t c = static_cast<int64_t>(o.constant);
+            auto tryScalar = [&](Item& it, const char* key, int64_t cur, int64_t lo, int64_t hi)
+            {
+                if (changed)
+                    return;
+                for (int64_t delta : {int64_t(0), int64_t(16), int64_t(-8), int64_t(-24), int64_t(24), int64_t(8)})
+                    if (static_cast<int64_t>(o.observed) == cur + delta && c - delta >= lo && c - delta <= hi && c - delta != cur)
+                    {
+                        it.set(key, c - delta);
+                        changed = true;
+                        return;
+                    }
+            };
+            tryScalar(d, "max", static_cast<int64_t>(maxB), 25, maxLimit);
+            tryScalar(d, "min", static_cast<int64_t>(minB), 0, static_cast<int64_t>(maxB));
+            if (o.width == 1)
+                tryScalar(d, "ver", ver, 1, 255);
+            size_t bi = 0;
+            for (auto& sub : d.sub)
+            {
+                if (sub.tag != "m" || changed)
+                    continue;
+                if (bi < batch.size())
+                {
+                    tryScalar(sub, "len", static_cast<int64_t>(batch[bi].payload.size()), 1, 65535);
+                    if (o.width >= 4)
+                        tryScalar(sub, "ifid", static_cast<int64_t>(batch[bi].id32), 0, 0xFFFFFFFFLL);
+                    if (o.width == 8)
+                        tryScalar(sub, "ts", static_cast<int64_t>(batch[bi].ts), INT64_MIN, INT64_MAX);
+                    if (o.width == 1)
+                        tryScalar(sub, "flags", batch[bi].flags, 0, 0xBF);
+                }
+                ++bi;
+            }
+            if (!changed)
+                continue;
+            fault("encode-call-derived-from-comparison-operands");
+            --encDerivedLeft;
+            ++made;
+            opEnc(d);
+        }
+        --encDepth;
+    }
 }
 
 // ---------------------------------------------------------------------------------------------- raw CMP peer
